@@ -142,10 +142,14 @@ class Token(str):
         if self.is_space():
             return True
 
-        for ws in reversed(self.grammar.whitespace):
-            temp = self.replace(ws, " ")
+        # Only the grammar's white space separates comments here, not
+        # everything that Python's str.split() considers white space
+        # (e.g. the no-break space is an ordinary PVL character).
+        temp = self
+        for ws in self.grammar.whitespace:
+            temp = temp.replace(ws, " ")
 
-        return all(t.is_comment() for t in temp.split())
+        return all(t.is_comment() for t in temp.split(" ") if t != "")
 
     def is_comment(self) -> bool:
         """Return true if the Token is a comment according to the
